@@ -169,6 +169,7 @@ let dkind_name = function
   | DFieldNotAllowed -> "field_not_allowed" | DMissingFields -> "missing_fields" | DConfigKey -> "config_key"
   | DBranchTooFar -> "branch_too_far" | DInvalidInstruction -> "invalid_instruction" | DUnknownIdentifier -> "unknown_identifier"
   | DNotInteger -> "not_integer" | DNotString -> "not_string" | DEval e -> "eval:" ^ everr_name e | DImportDefined -> "import_defined" | DAlign -> "align"
+  | DInvalidName -> "invalid_name" | DNotConverged -> "not_converged"
 let fault_name = function FFuel -> "fuel" | FPanic -> "panic" | FUnsupported -> "unsupported" | FDiverge -> "diverge"
 let symtype_name = function
   | TyLabel -> "label" | TyTestCase -> "test" | TyMacroArgument -> "macroarg" | TyConstant -> "const" | TyVariable -> "var"
@@ -209,7 +210,7 @@ let options_of (req : json) : options =
 let cmd_codegen (req : json) : json =
   try
     let toks = tokens_of_ast (field req "ast") in
-    let passes = (match field req "passes" with Null -> 64 | j -> to_int j) in
+    let passes = (match field req "passes" with Null -> small_of_z max_iterations | j -> to_int j) in
     let fuel = (match field req "fuel" with Null -> 3000 | j -> to_int j) in
     let with_trace = to_bool (field req "trace") in
     (match codegen (nat_of_int passes) (nat_of_int fuel) (options_of req) toks with
